@@ -284,6 +284,8 @@ def run(prop, tier, quick_slices, thorough_slices, nontrivial, drive_profile="mi
     for sl in nb_stats:
         per_slice[sl]["departures_followed"] = nb_stats[sl][0]
         per_slice[sl]["neighbourhood_schedules"] = nb_stats[sl][1]
+        if nb_stats[sl][1] == 0:          # the departures were at the end of the explored graph
+            continue
         nf = os.path.join(wd, "nb_%s.ndjson" % sl)
         pieces = vlib.split_schedules(nf)
         for k, q in enumerate(pieces):
@@ -291,8 +293,16 @@ def run(prop, tier, quick_slices, thorough_slices, nontrivial, drive_profile="mi
     graphs.clear()
     if nb_parts:
         vlib.log("[second pass] departures followed per slice (histories, schedules of their 3-step neighbourhood): %s" % json.dumps(nb_stats, sort_keys=True))
+
+        def do_nb(item):
+            # a tool failure in the second pass must not hide what the first pass has established
+            try:
+                return do_part(item)
+            except vlib.ToolError as e_:
+                vlib.log("[second pass] part %s failed and is ignored: %s" % (item[0], str(e_)[:300]))
+                return None
         with ThreadPoolExecutor(max_workers=4 if thorough else 8) as ex:
-            results += list(ex.map(do_part, nb_parts))
+            results += [x for x in ex.map(do_nb, nb_parts) if x is not None]
     vlib.log("[time] build+model-check %.0fs, harness+judge %.0fs" % (t_mc, time.time() - t0 - t_mc))
     groups, viols, drifts = {}, [], []
     hs = {"calls": 0, "panics": 0, "inapplicable": 0, "ops": {}}
